@@ -175,10 +175,26 @@ def _py_ops_under(func, subject, member, roles):
 
 def _lw1_siblings(prog, rr, members):
     """the two constant evaluators of ExprBinModel must fold each opcode with the matching python operator"""
-    sibs = [
-        (prog.method("ExprBinModel", "val"), "self.op", {"lhs": {"lhs"}, "rhs": {"rhs"}}),
-        (prog.method("XExprEvaluator", "visit_expr_bin"), "e.op", {"lhs": {"lhs_val"}, "rhs": {"rhs_val"}}),
-    ]
+    def roles_val(f):
+        # locals assigned from self.lhs.val() / self.rhs.val()
+        from sa.ir import find_local
+        return {"lhs": set(find_local(f.node, lambda v: norm(v) == "self.lhs.val()")), "rhs": set(find_local(f.node, lambda v: norm(v) == "self.rhs.val()"))}
+
+    def roles_eval(f):
+        # `<p>.lhs.accept(self); X = self.val` ... `<p>.rhs.accept(self); Y = self.val`
+        p = f.params[1]
+        side, out = None, {"lhs": set(), "rhs": set()}
+        for st in f.node.body:
+            if isinstance(st, ast.Expr) and isinstance(st.value, ast.Call) and norm(st.value) in ("%s.lhs.accept(self)" % p, "%s.rhs.accept(self)" % p):
+                side = "lhs" if ".lhs." in norm(st.value) else "rhs"
+            elif isinstance(st, ast.Assign) and norm(st.value) == "self.val" and side and isinstance(st.targets[0], ast.Name):
+                out[side].add(st.targets[0].id)
+        return out
+    fv = prog.method("ExprBinModel", "val")
+    fe = prog.method("XExprEvaluator", "visit_expr_bin")
+    sibs = [(fv, "self.op", roles_val(fv)), (fe, fe.params[1] + ".op", roles_eval(fe))]
+    for f, subject, roles in sibs:
+        rr.require(roles["lhs"] and roles["rhs"], "%s.%s: operand value locals not recognised" % (f.cls.name, f.name))
     for f, subject, roles in sibs:
         for m in members:
             if m in EXCLUDED:
